@@ -47,6 +47,7 @@ type GroupCfg struct {
 	InitialDesiredSkew int
 	AffinityStyle int // 0 selector, 1 affinity In, 2 both, 3 mixed per pod
 	IsDefault    bool
+	BigGroup     bool
 }
 
 type RunCfg struct {
@@ -76,6 +77,7 @@ type RunCfg struct {
 	InvalidCfg  bool
 
 	FaultOnlyGroup string            // metamorphic containment pairs: faults only in this group's context
+	StrayExclude   string            // metamorphic pairs: the default group's pods are never bound to this group's nodes
 	saltHook       map[string]string // metamorphic world pairs: per-group stream salt
 
 	// directed overrides (single-fault sweep)
@@ -115,6 +117,7 @@ type Profile struct {
 	PZeroCreation float64 // node objects with a zero creationTimestamp
 	PAsgEdit    float64 // operator edits of the ASG min/max/desired
 	PForeignTaint float64 // foreign taints added/removed by other controllers
+	PBigGroup   float64 // a group of 22-45 nodes (reap batches above 20)
 	PResize     float64 // allocatable of all nodes of a group changes (kubelet reservation rollout)
 	FaultBias   map[string]float64 // per-op multiplier of the fault probability
 }
@@ -151,7 +154,8 @@ func profileFor(prop string) Profile {
 	case "C08":
 		p.PDry, p.EdgeBias, p.PZeroCreation = 0.02, 0.2, 0.15
 	case "C09":
-		p.PCordon, p.PForceTaint, p.PAnnotate, p.ShortGrace = 0.7, 0.4, 0.4, 0.9
+		p.PCordon, p.PForceTaint, p.PAnnotate, p.ShortGrace, p.PStarve = 0.7, 0.4, 0.4, 0.9, 0.4
+		p.FaultBias = map[string]float64{OpDelete: 8, OpTerminateASG: 2}
 	case "C10":
 		p.PAnnotate, p.ShortGrace, p.PForceTaint = 0.7, 0.9, 0.3
 	case "C11":
@@ -165,7 +169,7 @@ func profileFor(prop string) Profile {
 	case "C17", "C18":
 		p.PFleet, p.PDry, p.PGlobalDry = 0.8, 0, 0
 	case "C19":
-		p.PForceTaint, p.ShortGrace, p.PDry = 0.5, 0.9, 0.02
+		p.PForceTaint, p.ShortGrace, p.PDry, p.PBigGroup, p.PExtTaint = 0.5, 0.9, 0.02, 0.12, 0.5
 		p.FaultBias = map[string]float64{OpTerminateASG: 5, OpDelete: 3}
 	case "C20":
 		p.POdd, p.PCalm, p.PFleet, p.ShortCool = 0.7, 0.3, 0.3, 0.8
@@ -339,6 +343,13 @@ func drawGroup(ch *Choices, p Profile, rc *RunCfg, idx int, isDefault bool) *Gro
 	}
 	if s.Chance(0.2) {
 		g.InitialNodes = 0
+	}
+	if s.Chance(p.PBigGroup) && !auto {
+		g.Min = s.Intn(3)
+		g.Max = 30 + s.Intn(16)
+		g.ASGMin, g.ASGMax = int64(s.Intn(g.Min+1)), int64(g.Max)
+		g.InitialNodes = 22 + s.Intn(g.Max-21)
+		g.BigGroup = true
 	}
 	if s.Chance(0.1) {
 		g.InitialDesiredSkew = s.Range(-1, 2)
